@@ -1774,7 +1774,7 @@ func init() {
 			NotDecided:  []string{"that the body decodes back to the value; JSONP framing bytes", "which status wins when a helper is called after the commit (C08)"},
 			Assumptions: []string{"goutil httpctype constants are the documented content types"},
 		},
-		Rules: []ruleFn{{"C19-STATUS", ruleC19Status}, {"C19-CTYPE", ruleC19CType}, {"C19-NOOVERRIDE", ruleC19NoOverride}, {"C19-ARMS", ruleC19Arms}, {"C19-ERR", ruleC19Err}, {"C19-JSONP", ruleC19JSONP}, {"C03-POOL", ruleC03Pool}, {"C08-LATCH", ruleC08Latch}, {"C08-PRECOMMIT", ruleC08Precommit}},
+		Rules: []ruleFn{{"C19-STATUS", ruleC19Status}, {"C19-CTYPE", ruleC19CType}, {"C19-NOOVERRIDE", ruleC19NoOverride}, {"C19-ARMS", ruleC19Arms}, {"C19-ERR", ruleC19Err}, {"C19-JSONP", ruleC19JSONP}, {"C19-STREAM", ruleC19Stream}, {"C03-POOL", ruleC03Pool}, {"C08-LATCH", ruleC08Latch}, {"C08-PRECOMMIT", ruleC08Precommit}},
 	})
 	register(&property{
 		Meta: propertyMeta{
@@ -1786,3 +1786,171 @@ func init() {
 		Rules: []ruleFn{{"C20-AUTH", ruleC20Auth}, {"C20-OVERRIDE", ruleC20Override}, {"C20-ADAPT", ruleC20Adapt}, {"C20-WRAP", ruleC20Wrap}, {"C05-SENTINEL", ruleC05Sentinel}, {"C08-FACADE", ruleC08Facade}},
 	})
 }
+
+// ---------------------------------------------------------------------------
+// C19-STREAM: a hand-written read loop writes what Read returned before it looks at the error
+
+// ruleC19Stream: io.Reader may return n > 0 together with a non-nil error (io.EOF included: net/http request
+// bodies, decompressors and iotest.DataErrReader do). A copy loop that tests the error first and leaves drops
+// the last chunk — the body is truncated with a correct status and no error reported. io.Copy gets this right;
+// the rule applies to every direct Read call in the module (today there is none: the helpers use io.Copy) and
+// to a two-function fixture that is analysed in every run. For every forward path from the Read on which the
+// error was found non-nil: the bytes were consumed (buf[:n] handed to a call / appended) somewhere on that path,
+// or n is known to be 0 on it.
+func ruleC19Stream(r *Run) {
+	w := r.W
+	rule := "C19-STREAM"
+	isZeroTest := func(d decision, n ssa.Value) bool {
+		b, ok := d.Cond.(*ssa.BinOp)
+		if !ok {
+			return false
+		}
+		op := b.Op
+		var other ssa.Value
+		if b.X == n {
+			other = b.Y
+		} else if b.Y == n {
+			other, op = b.X, flipOp(b.Op)
+		} else {
+			return false
+		}
+		c, okc := constInt(other)
+		if !okc {
+			return false
+		}
+		if !d.Truth {
+			op = negOp(op)
+		}
+		// n OP c holds on the path: n == 0, n <= 0, n < 1
+		return (op == token.EQL && c == 0) || (op == token.LEQ && c == 0) || (op == token.LSS && c == 1)
+	}
+	check := func(f *ssa.Function) (reads int, bad string, badPos token.Pos) {
+		eachInstr(f, func(in ssa.Instruction) {
+			c, ok := in.(*ssa.Call)
+			if !ok || !c.Call.IsInvoke() || c.Call.Method.Name() != "Read" {
+				return
+			}
+			sg := c.Call.Method.Type().(*types.Signature)
+			if sg.Params().Len() != 1 || sg.Results().Len() != 2 || !isErrorType(sg.Results().At(1).Type()) {
+				return
+			}
+			reads++
+			nV, errV := extractOf(c, 0), extractOf(c, 1)
+			if errV == nil {
+				return // error dropped: C19-ERR territory
+			}
+			fps, complete := exploreFrom(in, nil, 3000)
+			if !complete && bad == "" {
+				bad, badPos = "too many paths after the Read", w.InstrPos(in)
+				return
+			}
+			for _, fp := range fps {
+				failed, zero, consumed := false, false, false
+				for _, d := range fp.pc.decs {
+					if d.If == nil {
+						continue
+					}
+					if is, pol := nonNilTestP(d.Cond, errV, fp.pc); is && pol == d.Truth {
+						failed = true
+					}
+					if nV != nil && isZeroTest(d, nV) {
+						zero = true
+					}
+				}
+				if !failed {
+					continue
+				}
+				for _, x := range fp.instrs {
+					if x == in {
+						break // came round the loop to the same Read
+					}
+					cc, isCall := x.(ssa.CallInstruction)
+					if !isCall {
+						continue
+					}
+					for _, a := range callArgs(cc) {
+						if nV != nil && flowsFromDeep(a, func(y ssa.Value) bool {
+							sl, isSl := y.(*ssa.Slice)
+							return isSl && sl.High != nil && flowsFromDeep(sl.High, func(z ssa.Value) bool { return z == nV })
+						}) {
+							consumed = true
+						}
+					}
+				}
+				if !consumed && !zero && bad == "" {
+					bad, badPos = "a path on which Read's error is non-nil leaves without having written the n bytes returned by the same call", w.InstrPos(in)
+				}
+			}
+		})
+		return
+	}
+	total := 0
+	for _, f := range w.Funcs {
+		if strings.Contains(w.Fset.Position(f.Pos()).Filename, "zz_verif_stream_fixture") {
+			continue
+		}
+		n, bad, pos := check(f)
+		if n == 0 {
+			continue
+		}
+		total += n
+		if bad == "" {
+			pos = f.Pos()
+		}
+		r.Check(rule, FuncName(f)+":read loop", pos, bad == "", map[bool]string{true: "every path that finds Read's error non-nil has written (or knows to be empty) the bytes returned with it", false: bad + ": io.Reader may return data together with io.EOF or another error; the last chunk of such a reader (request bodies, decompressors) is dropped and the body is truncated with no error reported"}[bad == ""])
+	}
+	r.Exists(rule, "direct Read calls in the module", token.NoPos, true, fmt.Sprintf("%d direct Read call(s) outside the fixture (the streaming helpers use io.Copy)", total))
+	// the fixture: one loop that tests the error first (must be reported), one that writes first (must pass)
+	badF, goodF := w.FnOpt("rux", "zzVerifStreamErrFirst"), w.FnOpt("rux", "zzVerifStreamDataFirst")
+	if badF == nil || goodF == nil {
+		r.Undecided(rule, "positive fixture", token.NoPos, "the virtual fixture functions zzVerifStream* are not part of the analysed program")
+		return
+	}
+	_, b1, _ := check(badF)
+	_, b2, _ := check(goodF)
+	r.Check(rule, "fixture:error-first loop is reported", token.NoPos, b1 != "", "the rule recognises the truncating loop in the fixture")
+	r.Check(rule, "fixture:data-first loop is accepted", token.NoPos, b2 == "", "the rule accepts the loop that writes buf[:n] before testing the error ("+b2+")")
+}
+
+const streamFixture = `package rux
+
+import "io"
+
+// zzVerifStream* exist only in the overlay of the C19 run (C19-STREAM fixture).
+func zzVerifStreamErrFirst(w io.Writer, r io.Reader) error {
+	buf := make([]byte, 512)
+	for {
+		n, err := r.Read(buf)
+		if err != nil {
+			if err == io.EOF {
+				return nil
+			}
+			return err
+		}
+		if n == 0 {
+			continue
+		}
+		if _, err = w.Write(buf[:n]); err != nil {
+			return err
+		}
+	}
+}
+
+func zzVerifStreamDataFirst(w io.Writer, r io.Reader) error {
+	buf := make([]byte, 512)
+	for {
+		n, err := r.Read(buf)
+		if n > 0 {
+			if _, werr := w.Write(buf[:n]); werr != nil {
+				return werr
+			}
+		}
+		if err != nil {
+			if err == io.EOF {
+				return nil
+			}
+			return err
+		}
+	}
+}
+`
